@@ -71,6 +71,20 @@ def slice_axiom(s):
               AND(gt(hi, L), lt(L, lo), eq(s, C(0))))
 
 
+def mod_axioms(facts):
+    """(A % c) == 0 with a positive constant c: A is a multiple of c, so A <= 0 or A >= c (the only consequence the
+    linear procedure can use; it is what makes `remaining % record_size == 0` and `remaining > 0` give one whole record)"""
+    out = []
+    for f in facts:
+        if f.k == "op" and f.a[0] == "==":
+            for a, b in ((f.a[1], f.a[2]), (f.a[2], f.a[1])):
+                if is_const(b, 0) and a.k == "op" and a.a[0] == "%" and a.a[2].k == "const" and isinstance(a.a[2].a[0], int) and a.a[2].a[0] > 0:
+                    ax = binop("or", binop("<=", a.a[1], C(0)), binop(">=", a.a[1], a.a[2]))
+                    if ax not in facts and ax not in out:
+                        out.append(ax)
+    return out
+
+
 def _conj(xs):
     r = None
     for x in xs:
@@ -202,7 +216,7 @@ def in_loop(r):
     return False
 
 
-def prove(facts, goal, max_cases=None, _lazy=False, _depth=0, _fsplit=0):
+def prove(facts, goal, max_cases=None, _lazy=False, _depth=0, _fsplit=0, _universe=None):
     """entailment with slice-length axioms and relevance filtering.
     -> ('proved'|'refutable'|'unknown', model-or-reason)"""
     if max_cases is not None:
@@ -210,10 +224,12 @@ def prove(facts, goal, max_cases=None, _lazy=False, _depth=0, _fsplit=0):
         old = _lin.MAX_CASES
         _lin.MAX_CASES = max_cases
         try:
-            return prove(facts, goal, _lazy=_lazy, _depth=_depth, _fsplit=_fsplit)
+            return prove(facts, goal, _lazy=_lazy, _depth=_depth, _fsplit=_fsplit, _universe=_universe)
         finally:
             _lin.MAX_CASES = old
     facts = [truthy(f) for f in facts]
+    if _universe is None:
+        _universe = facts       # a concrete witness has to satisfy all of these, whatever subset a sub-proof works with
     if contradictory(facts):
         return "proved", None
     if _depth < 5:
@@ -251,7 +267,7 @@ def prove(facts, goal, max_cases=None, _lazy=False, _depth=0, _fsplit=0):
             _IN_SIMPLIFY[0] -= 1
         if g2.k == "const":
             return ("proved", None) if g2.a[0] else ("unknown", "goal simplifies to False")
-        st, m = prove(facts, g2, _lazy=True, _depth=9, _fsplit=_fsplit)
+        st, m = prove(facts, g2, _lazy=True, _depth=9, _fsplit=_fsplit, _universe=_universe)
         if st == "proved" or not any(_needs_simplify(f) for f in facts):
             return st, m
         _IN_SIMPLIFY[0] += 1
@@ -267,7 +283,10 @@ def prove(facts, goal, max_cases=None, _lazy=False, _depth=0, _fsplit=0):
                 f2.append(f)
         finally:
             _IN_SIMPLIFY[0] -= 1
-        return prove(f2, g2, _lazy=True, _depth=9, _fsplit=_fsplit)
+        return prove(f2, g2, _lazy=True, _depth=9, _fsplit=_fsplit, _universe=_universe)
+    maxs = mod_axioms(facts)
+    if maxs:
+        facts = facts + maxs
     rel = relevant(facts, goal)
     ax = [slice_axiom(s) for s in _slice_len_atoms(rel + [goal])]
     # axioms may connect further facts
@@ -337,7 +356,7 @@ def prove(facts, goal, max_cases=None, _lazy=False, _depth=0, _fsplit=0):
         return "unknown", "counter-model involves a summarised loop variable (no inductive invariant inferred)"
     if st == "refutable":
         # a REFUTED verdict needs a concrete input: every evaluable fact true, goal false
-        env = realise(facts, goal, m)
+        env = realise(_universe if len(_universe) >= len(facts) else facts, goal, m)
         if env is None:
             return "unknown", "counter-model of the linear abstraction could not be realised by a concrete input: " + \
                    ", ".join(f"{show(k)[:30]}={v}" for k, v in list(m.items())[:5])
